@@ -291,13 +291,22 @@ def run(ctx):
     # offsets handed to result_to_components are the slice offsets
     ifd = [c for c in walk_no_nested(rf.node) if isinstance(c, ast.Call) and
            norm(c.func) == "IslandFittingData"]
-    offs_def = [s for s in walk_no_nested(rf.node) if isinstance(s, ast.Assign)
-                and norm(s.targets[0]) == "offsets"]
-    ok = len(offs_def) == 1 and isinstance(offs_def[0].value, ast.Tuple) and \
-        [norm(e) for e in offs_def[0].value.elts][0::2] == [row0, col0]
+    # (the tuple may be named or written in the constructor call)
+    from .c08 import _resolve_local
+    offs_vals = []
+    for c in ifd:
+        v = kwarg(c, "offsets")
+        if v is None and len(c.args) >= 4:
+            v = c.args[3]
+        if v is not None:
+            offs_vals.append((c, _resolve_local(rf.node, v)))
+    ok = len(offs_vals) == 1 and \
+        isinstance(offs_vals[0][1], (ast.Tuple, ast.List)) and \
+        [norm(e) for e in offs_vals[0][1].elts][0::2] == [row0, col0]
     ctx.check("C05-R4", rf, "offsets = (%s, .., %s, ..)" % (row0, col0), ok,
               "the offsets used on the way back must be the cut-out's row "
-              "and column starts", node=offs_def[0] if offs_def else rf.node)
+              "and column starts", node=offs_vals[0][0] if offs_vals
+              else rf.node)
     # ---------------------------------------------------------------- R5
     r5(ctx, prog)
     # ---------------------------------------------------------------- R6
